@@ -24,22 +24,43 @@ def cut_points(G):
     return pts
 
 
-def make(G, eventless, fold, n, span, fold2=None):
+LATENCY = 30
+
+
+def make(G, eventless, fold, n, span, fold2=None, latent_only=None):
     reset_clock()
     bearing = [g for i, g in enumerate(G) if i not in eventless]
     folds = {"training-set": list(fold)}
     if fold2 is not None:
         folds["other"] = list(fold2)
-    tr = Transmitter(list(G), folds=folds)
+    given = list(G)
+    if span == 2:
+        # the grid is handed over unsorted and with a duplicate (the statement quantifies over all grids)
+        given = given[1::2] + given[0::2] + [given[0]]
+    tr = Transmitter(given, folds=folds)
+    if latent_only is not None:
+        # grid point `latent_only` carries no bar; its only event is a quote stamped 10 s after the PREVIOUS grid
+        # point, i.e. inside the latency window: the point is event-bearing through a latent event alone
+        bars = [g for g in bearing if g != G[latent_only]]
+        tr.add_events(bar_events(bars, [A]))
+        tr.add_events([EventNBBO(G[latent_only - 1] + timedelta(seconds=10), A, 77.0, 77.0)])
+        env = TradingEnv(BoxPortfolio([A], -1, 1), transmitter=tr, episode_length=n, sampling_span=span, latency=LATENCY)
+        return env, bearing
     tr.add_events(bar_events(bearing, [A]))
     env = TradingEnv(BoxPortfolio([A], -1, 1), transmitter=tr, episode_length=n, sampling_span=span)
     return env, bearing
 
 
-def run_case(G, eventless, fold, n, span, fold2=None, which="training-set"):
+def run_case(G, eventless, fold, n, span, fold2=None, which="training-set", latent_only=None):
     """Returns (messages, number of episodes executed, outcome signature)."""
     msgs = []
-    env, bearing = make(G, eventless, fold, n, span, fold2)
+    env, bearing = make(G, eventless, fold, n, span, fold2, latent_only)
+
+    def shown(step):
+        # what env.now() shows when the episode stands on `step`
+        if latent_only is not None and step == G[latent_only]:
+            return G[latent_only - 1] + timedelta(seconds=10)
+        return step
     window = fold if which == "training-set" else fold2
     fold_steps = [g for g in bearing if window[0] <= g <= window[1]]
     episodes = 0
@@ -99,10 +120,11 @@ def run_case(G, eventless, fold, n, span, fold2=None, which="training-set"):
             msgs.append("step raised %r" % (ex,))
         episodes += 1
         sig.append(tuple(str(v) for v in visited))
-        if visited != expect:
+        expect_shown = [shown(e) for e in expect]
+        if visited != expect_shown:
             msgs.append("fold [%s, %s], n=%s, start #%d: visited %s, expected %s"
                         % (window[0].time(), window[1].time(), n, pick, [str(v.time()) for v in visited], [str(v.time()) for v in expect]))
-        if any(not (window[0] <= v <= window[1]) for v in visited):
+        if any(not (window[0] <= v <= window[1]) for v, e in zip(visited, expect_shown) if v == e and e in G):
             msgs.append("timestep outside the fold window [%s, %s]: %s" % (window[0], window[1], [str(v) for v in visited]))
         if n is not None and decisions != n:
             msgs.append("episode length %d configured but the episode had %d decisions" % (n, decisions))
@@ -128,6 +150,15 @@ def cases(tier):
                             if size > 5 and span == 2 and (a + b) % 3:
                                 continue
                             yield (size, eventless, a, b, n, span, None)
+    # a grid point that is event-bearing through a LATENT event only, sitting exactly at (or just inside) the fold start
+    for size in (4, 5):
+        G = grid(size)
+        pts = cut_points(G)
+        for i in range(1, size - 1):
+            for a in (2 * i, 2 * i + 1):          # fold starts at the midpoint before G[i], or exactly on G[i]
+                for b in range(2 * i + 3, len(pts)):
+                    for n in (None, 1, 2, size - i, size - i + 1):
+                        yield (size, (), a, b, n, None, ("latent", i))
     # overlapping pairs of folds on one transmitter
     G = grid(5)
     pts = cut_points(G)
@@ -144,10 +175,13 @@ def _work(chunk):
         G = grid(size)
         pts = cut_points(G)
         fold = (pts[a], pts[b])
+        lat = second[1] if (second and second[0] == "latent") else None
+        if lat is not None:
+            second = None
         fold2 = (pts[second[0]], pts[second[1]]) if second else None
         for which in (("training-set", "other") if second else ("training-set",)):
             try:
-                msgs, eps, sig = run_case(G, set(eventless), fold, n, span, fold2, which)
+                msgs, eps, sig = run_case(G, set(eventless), fold, n, span, fold2, which, lat)
             except Exception as ex:
                 msgs, eps, sig = ["building/running the case raised %r" % (ex,)], 0, None
             out["evaluations"] += 1
@@ -157,7 +191,7 @@ def _work(chunk):
                 out["nontrivial"].add((size, tuple(eventless), a, b, n, span, second, which))
             if msgs:
                 out["violations"].append(({"kind": "fold", "size": size, "eventless": list(eventless), "a": a, "b": b, "n": n, "span": span,
-                                           "second": list(second) if second else None, "which": which},
+                                           "second": list(second) if second else None, "which": which, "latent_only": lat},
                                           "; ".join(msgs[:3]), (msgs[0].split(" ")[0], n is None, bool(eventless))))
     return out
 
@@ -256,7 +290,7 @@ def replay(case, **kw):
     fold = (pts[case["a"]], pts[case["b"]])
     fold2 = (pts[case["second"][0]], pts[case["second"][1]]) if case.get("second") else None
     try:
-        msgs, _, _ = run_case(G, set(case["eventless"]), fold, case["n"], case["span"], fold2, case["which"])
+        msgs, _, _ = run_case(G, set(case["eventless"]), fold, case["n"], case["span"], fold2, case["which"], case.get("latent_only"))
     except Exception as ex:
         msgs = ["building/running the case raised %r" % (ex,)]
     return msgs
